@@ -160,7 +160,7 @@ def main():
     cmds, probes = [], []
     for info in unit_infos:
         u = info['u']
-        cmds.append(info['res']['cmd'])
+        cmds.append(re.sub(r'/gen/run-\d+/', '/gen/', info['res']['cmd']) + (' [verdict reused from .cache/verus: identical generated file]' if info['res'].get('cached') else ''))
         for v in u.fns:
             if pid not in v.props:
                 continue
@@ -307,14 +307,34 @@ def main():
     return 0
 
 
+def _publish_gen(run_dir, gen_dir):
+    """Per-process generation directory (parallel checks never share a file); the last generated text of each unit is
+    moved to gen/<unit>.rs (atomic rename) for inspection, then the run directory is removed."""
+    import shutil
+    try:
+        for fn in os.listdir(run_dir):
+            src = os.path.join(run_dir, fn)
+            if os.path.isfile(src) and fn.endswith('.rs'):
+                os.replace(src, os.path.join(gen_dir, fn))
+    except OSError:
+        pass
+    shutil.rmtree(run_dir, ignore_errors=True)
+
+
 if __name__ == '__main__':
+    _gen_dir = kv.GEN
+    _run_dir = os.path.join(_gen_dir, 'run-%d' % os.getpid())
+    os.makedirs(_run_dir, exist_ok=True)
+    kv.GEN = _run_dir
     try:
         rc = main()
     except SystemExit:
+        _publish_gen(_run_dir, _gen_dir)
         raise
     except BaseException as e:   # a crash of the machinery is never an alarm
         import traceback
         traceback.print_exc()
         print('UNDECIDED internal error in the check machinery: %r' % (e,))
         rc = 2
+    _publish_gen(_run_dir, _gen_dir)
     sys.exit(rc)
